@@ -40,12 +40,20 @@ Drop(o) == /\ Live(o)
            /\ st' = LDrop(st, o).s
            /\ act' = [op |-> "drop", o |-> o]
 
+\* A construction that is rejected (bad arguments) after a wish was stated: no object comes into
+\* being and nothing may be released - in particular not the wished ID, which a live object may own.
+\* Only the interesting case is enumerated: the wish is an ID that is reserved in that map.
+FailCreate(m, d) == /\ d \in st.man[m].used
+                    /\ st' = st
+                    /\ act' = [op |-> "failcreate", m |-> m, d |-> d]
+
 SetFix(v) == fix' = FixSet(fix, v) /\ act' = [op |-> "fixset", v |-> v]
 DelFix(v) == v \in DOMAIN fix /\ fix' = FixDel(fix, v) /\ act' = [op |-> "fixdel", v |-> v]
 
 ObjNext == \/ \E o \in Obj, m \in Maps, d \in Desired : Create(o, m, d)
            \/ \E o, p \in Obj, m \in Maps, d \in {0 - 1, 1} : Copy(o, p, m, d)
            \/ \E o \in Obj : Detach(o) \/ Attach(o) \/ Drop(o)
+           \/ \E m \in Maps, d \in 1..MaxId : FailCreate(m, d)
 FixNext == \E v \in FixVars : SetFix(v) \/ DelFix(v)
 Next == (WithObj /\ ObjNext /\ UNCHANGED fix) \/ (WithFix /\ FixNext /\ UNCHANGED st)
 
